@@ -118,7 +118,7 @@ pub enum Ev {
     Jump { c: usize, role: Role, to: u64 },
     Teardown { c: usize, role: Role },
     /// single-shot seal with the parameters of a would-be sender context, compared with the composed form
-    SingleShotSeal { c: usize, cfg: Cfg, kr: usize, ks: Option<usize>, rng: B, pt: B, aad: B, inplace: bool },
+    SingleShotSeal { c: usize, cfg: Cfg, kr: usize, ks: Option<usize>, #[serde(default)] ks_pub: Option<usize>, rng: B, pt: B, aad: B, inplace: bool },
 
     // ---- stateless probes
     DeriveProbe { kem: KemId, ikm: B },
@@ -204,6 +204,10 @@ pub struct Violation {
 #[derive(Clone, Debug, Serialize, Deserialize)]
 pub struct ReplayFile {
     pub harness_version: String,
+    /// which build of the library the violation was observed with ("" = checks-on build, "plain" =
+    /// ordinary release build without overflow checks / debug assertions)
+    #[serde(default)]
+    pub build_profile: String,
     pub case: Case,
     pub violation: Violation,
     pub minimised: bool,
